@@ -33,7 +33,7 @@ class C14(Prop):
     def gen(self, ctx):
         out = []
         rng = ctx.rng("c14")
-        for i in range(ctx.pick(14, 120)):
+        for i in range(ctx.pick(40, 200)):
             nb = rng.choice([0, 1, 1, 2, 3, 4])
             buckets = []
             for k in range(nb):
